@@ -62,7 +62,7 @@ fn one(i: u8, dont: bool, trailing_idx: Option<usize>) {
 fn two(i: u8, j: u8, dont: bool, trailing_idx: Option<usize>) {
     let out = frag_split(vec![OsString::from(lit(i)), OsString::from(lit(j))], ",", dont, trailing_idx);
     let whole_i = !lit(i).contains(',') || (dont && trailing_idx == Some(0));
-    let whole_j = !lit(j).contains(',') || (dont && trailing_idx == Some(1));
+    let whole_j = !lit(j).contains(',') || (dont && matches!(trailing_idx, Some(t) if t <= 1));
     let n = check_one(&out, 0, i, whole_i);
     let n = check_one(&out, n, j, whole_j);
     assert!(out.len() == n);
